@@ -72,6 +72,22 @@ fn c06_case(b: usize, l: usize, depth: u8, stop_at: u32) {
     let _ = polls;
     core::mem::forget(s);
 }
+/// C07 alone: one timed search with the deadline after poll `stop_at` (half the cost of the two-search C06 case).
+fn c07_case(b: usize, l: usize, depth: u8, stop_at: u32) {
+    setup_game(b, l);
+    let mut s = Searcher::new();
+    unsafe { CLK.stop_at = stop_at; }
+    let _ = s.find_best_move(&Board::root(), depth, Some(Duration::from_millis(1)));
+    let stopped = unsafe { CLK.stopped };
+    vassert!(unsafe { CLK.nodes_after_stop } == 0, "C07: search entered further nodes after the deadline had been observed");
+    vassert!(unsafe { CLK.max_nodes_between_polls } <= 2, "C07: more than two nodes entered between two consecutive clock polls");
+    vcover!(stopped, "search was interrupted");
+    core::mem::forget(s);
+}
+macro_rules! c07_harness { ($name:ident, $unw:literal, $b:literal, $l:literal, $d:literal, $stop:literal) => {
+    search_harness!($name, $unw, { c07_case($b, $l, $d, $stop); });
+}; }
+include!("gen/h_c07_cases.rs");
 // generated: one harness per interruption point (gen/h_c06_cases.rs)
 macro_rules! c06_harness { ($name:ident, $unw:literal, $b:literal, $l:literal, $d:literal, $stop:literal) => {
     search_harness!($name, $unw, { c06_case($b, $l, $d, $stop); });
